@@ -116,12 +116,13 @@ var round13Explanations = map[string]string{
 }
 
 var round14Explanations = map[string]string{
+	"C04": " (R17) every type assertion on an Evaluate result in a Match method of pkg/router is the comma-ok form.",
 	"C01": " (R20) no fasthttp.Request.Read / ReadLimitBody / MultipartForm call in pkg/stream/http and every ContinueReadBody gets preParseMultipartForm=false. (R21) the dubbothrift encoder's WriteByte argument derives from frame.Version and the decoder stores that field.",
 	"C02": " (R20) Dispatch's retire branch is under atomic.Load(&conn.F) == 0; endStream stores 1 to F before doSend; serve stores 0 to F between Response.Read and handleResponse. (R21) as C09.R9.",
 	"C07": " (AUTO) SelectStreamFactoryProtocol has no range over a map; RegisterProtocolStreamFactory appends the name to a package-level list.",
 	"C09": " (R11) Shutdown stores true into a pool field; no re-pool site of onStreamDestroy / activeClientPingPong.Close is reachable with that flag set and the client open, or with the flag untested. (R9) form (b) removed.",
 	"C11": " (O21) no IsLoopback call in StartService / ParseListenerConfig; the take of an inherited listener in StartService is under Port == Port and a call comparing two net.IP; ResolveTCPAddr of an inherited address is under l.(*net.TCPListener).",
-	"C12": " (R17) in UpdateCluster and UpdateHosts a Lock of a manager mutex dominates every clustersMap.Load and is released by a deferred Unlock, the same mutex in both; Append/Remove/UpdateClusterHosts reach UpdateHosts.",
+	"C12": " (R17) in UpdateCluster, UpdateHosts and RemovePrimaryCluster a Lock of a manager mutex dominates every clustersMap.Load and is released by a deferred Unlock, the same mutex in all three (with RemovePrimaryCluster); Append/Remove/UpdateClusterHosts reach UpdateHosts.",
 	"C13": " (R23) no store of false into Status in convertTLS dominated by a read of CertChain / PrivateKey. (R24) the serverName map update of buildMatch is under serverName != \"\".",
 	"C14": " (R13) every onUpstreamReset call in processError is on the false edge of directResponse; the direct-response branch stores false into upstreamRequest.setupRetry.",
 	"C19": " (R15) the path written in the directory-mode loops derives from a package function that looks up and adds to a map allocated outside the loop.",
